@@ -675,3 +675,111 @@ Proof.
   split; [eexists; split; [vm_compute; reflexivity|split; vm_compute; reflexivity]|].
   eexists; split; [vm_compute; reflexivity|vm_compute; reflexivity].
 Qed.
+
+(* ---------------------------------------------------------------------------------------------
+   THE TWO HALVES COMPOSED: THE ORACLE IS THE TRANSLATED rset_find ITSELF.  Above, rset_find is an oracle; C10 proves the translated
+   rset_find (with the translated regexec under it) equal to RsetDefs.rset_find_d 256 (C10_tr_rset_find_model).  Here the oracle is
+   instantiated: `ext_is_find ext fuelR e` says ext X_rset_find args m = callf cprog fuelR (find_depth e) F_rset_find args m (ext_find is
+   such an oracle), and the model's matcher parameters are instantiated by C10's model: find_raw lr rl s chrs b e ctx flg =
+   rset_find_d 256 (the set of the context's side) (text between chrs[b] and chrs[e]) 16 flg, find_ctx rc s = rset_find_d 256 rc s 0 0.
+   Proofs: coq/TrCmp18.v; pieces: coq/TrCmp18Dir.v (dir.c's theorems once more for an oracle hypothesis restricted to the memories
+   of the run -- oracle_ok / ctx_oracle_ok quantify over ALL memories, which no real rset_find satisfies: its set must be in memory,
+   intact), coq/TrCmp18Brk/Rec/Rx.v (C10's regexec / rset_find tie once more with globals_at weakened to the blocks the regex engine
+   reads: in C18's memories dir_rslr / dir_rsrl / dir_rsctx / xtd do not hold their initializers; and rset_find with n = 0, grps = NULL,
+   as dir_context calls it), coq/CLiteSim.v (a run that returns Ok does not depend on cells appended behind its blocks: dir_match hands
+   rset_find the start of the sbuf's buffer, a block LONGER than the string, C10's theorem wants the string to fill its block).
+   sets_world m hi fuelR ...: the three sets of dir_init (struct rset, grp[], setgrpcnt[], struct regex, program array, atom strings:
+   TrCmp18Rx.rset_at) lie in the first hi blocks of the memory, behind the pointers in dir_rsctx / dir_rslr / dir_rsrl (NULL: no set), the
+   class table of the regex engine is in place; each set's program was made by regcomp (so the model never answers OOB / NoFuel on a
+   NUL-free text and reports -1/-1 or 0 <= so <= eo <= |text|), its tables are rset_make's (rset_tabs_ok), sizes inside int, fuel.
+   SIDE CONDITIONS THAT REMAIN: sets_world; the order array is a later block than the sets (hi <= g); length s + 2 <= fuelR, fuel
+   of dir.c's loops; cm_ok on the MODEL's matcher (non-empty matches inside the searched range: the hypothesis of C18_terminates).
+   The engine's depth limit 256 is NOT a side condition: the model cuts where the C text cuts (its cut count is the second
+   component of rset_find_d, whatever it is). *)
+From NV Require Import TrCmp18Dir TrCmp18 TrCmp18Ex.
+
+(* the oracle hypotheses of dir.c's theorems HOLD for the translated rset_find: the marks ... *)
+Theorem C18_tr_find_is_oracle : forall (m0 : mem) hi fuelR e g ext s chrs rslr rsrl lr rl,
+  ext_is_find ext fuelR e -> (hi <= length m0)%nat -> (hi <= g)%nat -> TrCmp18Brk.globals_at (firstn hi m0) ->
+  nonul s -> chrs_ok s chrs -> (length s + 2 <= fuelR)%nat -> (Z.of_nat (length s) < 2147483647)%Z -> (16 < fuelR)%nat ->
+  set_in (firstn hi m0) fuelR rslr lr -> set_in (firstn hi m0) fuelR rsrl rl ->
+  (forall rs, lr = Some rs -> set_ok fuelR rs) -> (forall rs, rl = Some rs -> set_ok fuelR rs) ->
+  oracle_on m0 [g] ext s chrs rslr rsrl (find_raw lr rl s chrs).
+Proof. intros m0 hi fuelR e g ext s chrs rslr rsrl lr rl H1 H2 H3 H4. exact (find_oracle_on m0 hi fuelR e g ext H1 H2 H3 H4 s chrs rslr rsrl lr rl). Qed.
+Print Assumptions C18_tr_find_is_oracle.
+
+(* ... and the context *)
+Theorem C18_tr_find_is_ctx_oracle : forall (m0 : mem) hi fuelR e g ext sb s rsctx rc,
+  ext_is_find ext fuelR e -> (hi <= length m0)%nat -> (hi <= g)%nat -> TrCmp18Brk.globals_at (firstn hi m0) ->
+  nonul s -> (length s + 2 <= fuelR)%nat -> (Z.of_nat (length s) < 2147483647)%Z ->
+  set_in (firstn hi m0) fuelR rsctx rc -> (forall rs, rc = Some rs -> set_ok fuelR rs) ->
+  ctx_oracle_on m0 [g] ext rsctx sb s (find_ctx rc s).
+Proof. intros m0 hi fuelR e g ext sb s rsctx rc H1 H2 H3 H4. exact (find_ctx_oracle_on m0 hi fuelR e g ext H1 H2 H3 H4 sb s rsctx rc). Qed.
+Print Assumptions C18_tr_find_is_ctx_oracle.
+
+(* the model's matcher satisfies raw_ok (no set: no match; the index is a row of dirmarks; offsets are ints, the whole match has
+   offsets >= 0): nothing is assumed of it any more *)
+Theorem C18_find_raw_ok : forall (M : mem) fuel rslr rsrl lr rl s chrs,
+  set_in M fuel rslr lr -> set_in M fuel rsrl rl ->
+  (forall rs, lr = Some rs -> set_ok fuel rs /\ (RsetDefs.rs_n rs <= length dirmarks)%nat) ->
+  (forall rs, rl = Some rs -> set_ok fuel rs /\ (RsetDefs.rs_n rs <= length dirmarks)%nat) ->
+  chrs_ok s chrs -> (Z.of_nat (length s) <= 2147483647)%Z -> (forall b e, length (substr s chrs b e) <= length s)%nat ->
+  raw_ok rslr rsrl (find_raw lr rl s chrs).
+Proof. exact find_raw_ok. Qed.
+Print Assumptions C18_find_raw_ok.
+
+Theorem C18_tr_dir_context_full : forall ext fuelR e (m : mem) hi sb s xtd rsctx rslr rsrl rc lr rl d fuel,
+  ext_is_find ext fuelR e -> ctx_world m sb s xtd rsctx -> nonul s -> sets_world m hi fuelR rsctx rslr rsrl rc lr rl ->
+  (length s + 2 <= fuelR)%nat -> (Z.of_nat (length s) < 2147483647)%Z ->
+  exists m', callx ext cprog fuel (S (S d)) F_dir_context [VPtr sb 0%Z] m = Ok (VInt (dir_context s xtd (find_ctx rc s)), m') /\ mem_ext m m' [].
+Proof. exact tr_dir_context_full. Qed.
+Print Assumptions C18_tr_dir_context_full.
+
+Theorem C18_tr_dir_match_full : forall ext fuelR e fuel d (m : mem) hi sb s cb chrs rsctx rslr rsrl rc lr rl b e' ctx prec prb pre pcb pce pdir,
+  ext_is_find ext fuelR e -> dir_world m sb s cb chrs rslr rsrl -> (b <= e' < length chrs)%nat ->
+  outs_ok m sb cb (dm_outs prec prb pre pcb pce pdir) -> sets_world m hi fuelR rsctx rslr rsrl rc lr rl ->
+  (length s + 2 <= fuelR)%nat -> (length s < fuel)%nat ->
+  let raw := find_raw lr rl s chrs in
+  exists m',
+    callx ext cprog fuel (S (S (S (S d)))) F_dir_match (dm_args cb b e' ctx prec prb pre pcb pce pdir) m
+    = Ok (VInt (match dir_match s chrs raw b e' ctx with Some _ => 0 | None => 1 end)%Z, m') /\
+    match dir_match s chrs raw b e' ctx with
+    | Some res => mem_ext m m' (dm_outs prec prb pre pcb pce pdir) /\ res_cells m' prec prb pre pcb pce pdir res
+    | None => mem_ext m m' []
+    end.
+Proof. exact tr_dir_match_full. Qed.
+Print Assumptions C18_tr_dir_match_full.
+
+(* THE REORDERING ON THE C TEXT, NO ORACLE LEFT FOR THE MATCHER: the translated dir_reorder, with the translated rset_find and the
+   translated regexec under it, leaves in the order array what DirDefs.dir_reorder computes with C10's model of the matcher on the sets
+   in memory; no other block that existed changes *)
+Theorem C18_tr_dir_reorder_full : forall ext fuelR e FUEL d (m : mem) hi sb s xtd rsctx rslr rsrl rc lr rl g ord ord',
+  ext_is_find ext fuelR e ->
+  reorder_world m sb s xtd rsctx rslr rsrl -> sets_world m hi fuelR rsctx rslr rsrl rc lr rl -> (hi <= g)%nat ->
+  int_arr_at m g (map Z.of_nat ord) -> ints_ok (map Z.of_nat ord) -> ~ In g (reorder_blocks sb) -> (uc_slen s <= length ord)%nat ->
+  (length s + 2 <= fuelR)%nat ->
+  let raw := find_raw lr rl s (uc_chop s) in
+  cm_ok (dir_match s (uc_chop s) raw) (uc_slen s) ->
+  (S (S (length s)) < FUEL)%nat ->
+  dir_reorder s xtd (find_ctx rc s) raw ord = Some ord' ->
+  exists m', callx ext cprog FUEL (S (S (S (S (S (S (S (uc_slen s) + d))))))) F_dir_reorder [VPtr sb 0%Z; VPtr g 0%Z] m = Ok (VUndef, m') /\
+    mem_ext m m' [g] /\ int_arr_at m' g (map Z.of_nat ord').
+Proof. exact tr_dir_reorder_full. Qed.
+Print Assumptions C18_tr_dir_reorder_full.
+
+(* non-vacuity: the three sets of dir_init for the dirmarks / dircontexts patterns of conf.h (GenConf.v), compiled by the model's
+   rset_make / regcomp and laid out behind the global blocks; the line "ab " U+0628 U+0629 " cd" (8 characters, 10 bytes) and its
+   order array appended; xtd = 1.  Every hypothesis of C18_tr_dir_reorder_full holds for that memory (the sets are checked by the
+   boolean checker TrCmp18Ex.rset_atb, sound: rset_atb_ok), the context set finds the left-to-right context, the model swaps the
+   two Arabic letters, and the translated dir_reorder RUN by vm_compute with the translated rset_find / regexec under it (ext_find)
+   leaves the same order 0 1 2 4 3 5 6 7 *)
+Example C18_tr_full_nonvacuous :
+  ext_is_find (ext_find ex_fuel 0) ex_fuel 0 /\
+  reorder_world ex_mem ex_sb ex_s 1 (VPtr ex_pctx 0%Z) (VPtr ex_plr 0%Z) (VPtr ex_prl 0%Z) /\
+  sets_world ex_mem ex_hi ex_fuel (VPtr ex_pctx 0%Z) (VPtr ex_plr 0%Z) (VPtr ex_prl 0%Z) (Some ex_ctx) (Some ex_lr) (Some ex_rl) /\
+  (ex_hi <= ex_g)%nat /\ int_arr_at ex_mem ex_g (map Z.of_nat (seq 0 8)) /\ ints_ok (map Z.of_nat (seq 0 8)) /\ ~ In ex_g (reorder_blocks ex_sb) /\
+  (uc_slen ex_s <= 8)%nat /\ (length ex_s + 2 <= ex_fuel)%nat /\
+  cm_ok (dir_match ex_s (uc_chop ex_s) ex_raw) (uc_slen ex_s) /\
+  find_ctx (Some ex_ctx) ex_s = 1%Z /\ ex_model = Some [0; 1; 2; 4; 3; 5; 6; 7]%nat /\
+  ex_run = Some (Some (map VInt [0; 1; 2; 4; 3; 5; 6; 7]%Z)).
+Proof. exact cmp18_nonvacuous. Qed.
